@@ -1067,15 +1067,21 @@ fn c08_conformance_once(rep: &mut Report, full: bool) -> u64 {
                 if !c.establish(65001, 0x0a000001, remote, caps).await? {
                     // the OPEN exchange takes milliseconds: a Hold Timer Expired NOTIFICATION now is a
                     // verdict (zero negotiated: no timer may run; otherwise >= 3 s early), anything else is not
+                    let early = |h: u64| {
+                        if h == 0 {
+                            "VIOLATION zero-hold: Hold Timer Expired NOTIFICATION right after the OPEN exchange".to_string()
+                        } else {
+                            format!("VIOLATION expiry-time: Hold Timer Expired NOTIFICATION right after the OPEN exchange (negotiated {h} s)")
+                        }
+                    };
+                    if c.open_notification.is_some_and(|(code, _)| code == 4) {
+                        return Ok(early(h));
+                    }
                     let t1 = Instant::now();
                     while t1.elapsed() < Duration::from_millis(1000) {
                         match tokio::time::timeout(Duration::from_millis(200), c.read_msg()).await {
                             Ok(Ok(Some(bgp::ParsedMessage::Notification(n)))) if n.notification_code() == 4 => {
-                                return Ok(if h == 0 {
-                                    "VIOLATION zero-hold: Hold Timer Expired NOTIFICATION right after the OPEN exchange".to_string()
-                                } else {
-                                    format!("VIOLATION expiry-time: Hold Timer Expired NOTIFICATION right after the OPEN exchange (negotiated {h} s)")
-                                });
+                                return Ok(early(h));
                             }
                             Ok(Ok(Some(_))) => continue,
                             Ok(Ok(None)) | Ok(Err(_)) => break,
